@@ -12,7 +12,31 @@ CONFIGS = {
     "K3": ("zbus", ["-p", "zbus", "--no-default-features", "--features", "tokio,p2p"]),
     "K4": ("zbus", ["-p", "zbus", "--features", "p2p", "--tests"]),
     "K5": ("zbus_xmlgen", ["-p", "zbus_xml", "-p", "zbus_xmlgen"]),
+    # K6: /verif/fixtures/ifaces (a crate of our own that path-depends on the tree under analysis) plus
+    # the zbus library it links: #[interface] expansions no in-repo fixture contains (spawn = false, ...).
+    "K6": ("zverif_ifaces", ["--lib"]),
 }
+FIXTURES = {"K6": ("ifaces", "zbus zverif_ifaces")}  # config -> (dir under /verif/fixtures, crates to dump)
+
+
+def cache_key(config, repo=None):
+    """tree hash of the repo, extended by the fixture sources for fixture configurations"""
+    th = tree_hash(repo)
+    fx = FIXTURES.get(config)
+    if not fx:
+        return th
+    h = hashlib.sha256(th.encode())
+    base = os.path.join(VERIF, "fixtures", fx[0])
+    for root, dirs, files in os.walk(base):
+        dirs.sort()
+        for f in sorted(files):
+            h.update(os.path.relpath(os.path.join(root, f), base).encode() + b"\0")
+            with open(os.path.join(root, f), "rb") as fh:
+                h.update(fh.read())
+    for extra in ("run_zmir.sh", "crate_filter.sh"):
+        with open(os.path.join(VERIF, "engine", extra), "rb") as fh:
+            h.update(fh.read())
+    return h.hexdigest()[:24]
 
 
 def tree_hash(repo=None):
@@ -231,6 +255,9 @@ def extract(config, out_dir, repo=None):
     env = dict(os.environ)
     if repo:
         env["ZMIR_REPO"] = repo
+    fx = FIXTURES.get(config)
+    if fx:
+        env["ZMIR_FIXTURE"], env["ZMIR_ONLY"] = fx
     t = time.time()
     rc = subprocess.call([os.path.join(VERIF, "engine", "run_zmir.sh"), out_dir] + args, env=env)
     return rc, time.time() - t
@@ -239,7 +266,7 @@ def extract(config, out_dir, repo=None):
 def load(config, repo=None, quiet=False):
     """Facts of `config` for the current working tree of the repo (extracting if not cached)."""
     repo = repo or REPO
-    th = tree_hash(repo)
+    th = cache_key(config, repo)
     d = os.path.join(CACHE, config, th)
     os.makedirs(os.path.join(CACHE, config), exist_ok=True)
     lock = open(os.path.join(CACHE, config, th + ".lock"), "w")
